@@ -319,7 +319,7 @@ def explain(case, tag):
     for i, o in enumerate(case["ops"]):
         got = show_obs(case["obs"][i]) if i < len(case.get("obs") or []) else "?"
         want = says[i] if i < len(says) else "?"
-        mark = "" if got.split(" data=")[0] == want.split(" data=")[0] else "     <-- differs"
+        mark = "" if got.strip() == want.strip() else "     <-- differs"
         lines.append("%-34s code: %-40s model: %s%s" % (show_op(o), got, want, mark))
     return lines
 
